@@ -670,7 +670,7 @@ class BlockBuilder:
         :type iterations: int, str, AnnotatedValue, or None
         """
 
-        builder = SubcircuitBlockBuilder()
+        builder = SubcircuitBlockBuilder(iterations)
         self.expression.append(builder.expression)
         return builder
 
@@ -729,7 +729,8 @@ class SubcircuitBlockBuilder(BlockBuilder):
 
     def __init__(self, iterations=None):
         super().__init__("subcircuit_block")
-        self.expression.append(iterations)
+        # An absent count is written like the parser writes it
+        self.expression.append("" if iterations is None else iterations)
 
 
 class BranchBlockBuilder(BlockBuilder):
